@@ -463,7 +463,10 @@ class DocSync:
                     if dst[key] == value:
                         continue
                     elif isinstance(value, Mapping):
-                        self(src[key], dst[key], key + ".")
+                        nested = dst[key]
+                        if isinstance(dst, _DocProxy) and isinstance(nested, Mapping):
+                            nested = _DocProxy(nested, dry_run=dst.dry_run)
+                        self(src[key], nested, root + key + ".")
                         continue
                     elif self.key_strategy is None or not self.key_strategy(root + key):
                         self.skipped_keys.add(root + key)
